@@ -155,8 +155,79 @@ def rule_r3(facts, rep, rid="C14-R3"):
     else:
         rep.violation(rid, rf.def_ + "|key-is-subdirs-plus-stem", "loader key is no longer `<sub dirs>/<file stem>`", rf.loc)
 
+    # the recursive directory walk hands down the WHOLE path of sub-directories (parent's path + this directory's name)
+    rec = [x for x in fb.walk(nf.body) if x.get("k") == "call" and fb.callee(x) == nf.def_]
+    key = nf.def_ + "|recursion-accumulates-sub-path"
+    if not rec:
+        rep.violation(rid, key, "the directory scan does not recurse into sub-directories", nf.loc)
+    else:
+        cnf = ctx(nf)
+        arg = rec[0]["args"][1] if len(rec[0]["args"]) > 1 else None
+        at = cnf.mentions(arg) if arg is not None else set()
+        lid = arg.get("id") if arg is not None and arg.get("k") == "path" else None
+        # mutations of the local (push / extend) count as provenance too
+        grown = False
+        if lid is not None:
+            for y in fb.walk(nf.body):
+                if y.get("k") == "mcall" and y["name"] in ("push", "extend", "extend_from_slice", "append") and y["recv"].get("k") == "path" and y["recv"].get("id") == lid:
+                    grown = True
+                    at |= cnf.mentions(y["args"][0])
+        has_parent = ("param", "sub_path") in at
+        has_name = any(a[0] == "call" and a[1] and a[1].endswith("Path::file_name") for a in at)
+        if has_parent and has_name:
+            rep.ok(rid, key, "recursive call gets sub_path + [directory name]", loc(nf, rec[0]))
+        else:
+            rep.violation(rid, key, "the recursive scan passes a sub-path built from %s: notes two or more directories deep are loaded under a key that lacks the outer directories, "
+                          "so the file, its URI and its key no longer name the same note" % ("the directory name only" if has_name and not has_parent else "the parent path only" if has_parent else "neither the parent path nor the directory name"), loc(nf, rec[0]))
+    files = [x for x in fb.walk(nf.body) if x.get("k") == "call" and (fb.callee(x) or "").endswith("liwe::fs::read_file")]
+    key = nf.def_ + "|files-get-current-sub-path"
+    if files and len(files[0]["args"]) > 1 and ("param", "sub_path") in ctx(nf).vprov(files[0]["args"][1]):
+        rep.ok(rid, key, "read_file(path, &sub_path)", loc(nf, files[0]))
+    else:
+        rep.violation(rid, key, "files are not read with the current sub_path", nf.loc)
+
+
+def rule_r4(facts, rep, rid="C14-R4"):
+    """Inside BasePath every url -> path conversion decodes (Url::to_file_path); the raw, still percent-encoded forms are audited fallbacks."""
+    raw = ("Url::path", "Url::as_str", "Url::to_string", "Url::path_segments", "ToString>::to_string")
+    n = 0
+    for f in facts.body_fns():
+        if f.impl_self is None or not f.impl_self.endswith("server::BasePath") or f.kind == "closure":
+            continue
+        rep.saw_fn(f)
+        counts = {}
+        for x in fb.walk(f.body):
+            if x.get("k") != "mcall":
+                continue
+            rty = fb.norm(fb.tnorm(x.get("rty") or "")).replace("&", "")
+            if not rty.endswith(("url::Url", "lsp_types::Url", "::Url")):
+                continue
+            nm = x["name"]
+            if nm in ("to_file_path", "join", "clone", "scheme"):
+                continue
+            if nm in ("path", "as_str", "to_string", "path_segments", "as_ref", "into_string", "domain", "host_str", "query", "fragment"):
+                i = counts.get(nm, 0)
+                counts[nm] = i + 1
+                n += 1
+                key = "%s|Url::%s|%d" % (f.def_, nm, i)
+                c = ctx(f)
+                # audited: the fallback of url_to_key for non-file urls (only reached when to_file_path failed)
+                fallback = f.def_.endswith("BasePath::url_to_key") and any(p.get("k") == "match" for p in c.parents(x))
+                if fallback:
+                    rep.ok(rid, key, "audited fallback: only on the arm where Url::to_file_path gave no path", loc(f, x), nontrivial=False)
+                else:
+                    rep.violation(rid, key, "BasePath::%s reads the url through `%s()`, which is still percent-encoded, where its siblings compare decoded file paths (Url::to_file_path): "
+                                  "for a library path or note name with a space / non-ASCII character the key, the file and the URI fall apart" % (fb.last_seg(f.def_), nm), loc(f, x))
+    d = facts.fn("BasePath::directory")
+    key = d.def_ + "|decoded"
+    if q.has_call(ctx(d).mentions(d.body), "Url::to_file_path"):
+        rep.ok(rid, key, "the library directory is the decoded file path of the base url", d.loc)
+    else:
+        rep.violation(rid, key, "BasePath::directory does not decode the base url with Url::to_file_path", d.loc)
+
 
 def run(facts, rep, tier):
+    rep.rule("C14-R4", "Unit discipline inside BasePath: every url -> path conversion decodes through Url::to_file_path; raw (percent-encoded) views of a url are confined to the audited fallback.")
     rep.rule("C14-R1", "No repeated-pattern trimming for prefix/suffix removal: str::trim_{end,start}_matches with a multi-character string pattern is not used "
              "anywhere in the workspace (it strips all repetitions); the key-deriving fns still strip the suffix/prefix (once).")
     rep.rule("C14-R2", "url->key decodes what key->url encodes (Url::to_file_path / percent_decode in url_to_key), and the three url constructors of "
@@ -166,3 +237,4 @@ def run(facts, rep, tier):
     rule_r1(facts, rep)
     rule_r2(facts, rep)
     rule_r3(facts, rep)
+    rule_r4(facts, rep)
